@@ -7,10 +7,10 @@ time, so the mixed-kind part of the C06 correspondence run is GENERATED: one C++
 CLAUSES (`name=value`): the broadcast of the operands in every order and grouping, with itself and with the
 result — the symmetric / associative / idempotent / absorbing clauses of the property — through the real
 nmtools entry points, intermediate results keeping the type the library gave them (maybe<clipped tuple>, ...).
-The answer line is compared with the Lean model (driver ops `kexpr`, `kbto`, `kbarr`, `kadd`) and NumPy
+The answer line is compared with the Lean model (driver ops `kexpr`, `ksbt`, `kbto`, `kbarr`, `kadd`) and NumPy
 (lib/props/c06.py), which are kind-blind: the property says the kind must not matter.
 
-kinds of a SHAPE operand (index level: index::broadcast_shape)
+kinds of a SHAPE operand (index level: index::broadcast_shape, index::shape_broadcast_to)
     ct   nmtools_tuple{3_ct,1_ct}                 compile-time constant
     cl   nmtools_tuple{clipped_size_t<B>{v}...}   clipped, bound B = v + slack(salt)
     a    nmtools_array<size_t,N>                  fixed rank, run-time extents
@@ -207,7 +207,7 @@ def decl_array(name, shape, kind, pos, salt=0):
 # cases
 # ------------------------------------------------------------------------------------------------
 class KCase:
-    """op in bs2 / bs3 / bto / barr / barr3 / add;  shapes = operand shapes (bto: [src, dst]);  kinds = one per operand"""
+    """op in bs2 / bs3 / sbt / bto / barr / barr3 / add;  shapes = operand shapes (sbt, bto: [src, dst]);  kinds = one per operand"""
     __slots__ = ('op', 'shapes', 'kinds', 'salt', 'key', 'seeded')
 
     def __init__(self, op, shapes, kinds, salt=0, seeded=False):
@@ -218,7 +218,7 @@ class KCase:
         return 'op=%s shapes=%s kinds=%s salt=%d' % (self.op, fmt_lists(self.shapes), '/'.join(self.kinds), self.salt)
 
     def weight(self):
-        return {'bs2': 0.13, 'bs3': 0.27, 'bto': 0.2, 'barr': 0.85, 'barr3': 1.5, 'add': 1.2}[self.op]   # measured seconds of g++ per case
+        return {'bs2': 0.13, 'bs3': 0.27, 'sbt': 0.12, 'bto': 0.2, 'barr': 0.85, 'barr3': 1.5, 'add': 1.2}[self.op]   # measured seconds of g++ per case
 
     # ---- clauses: [(name, kind of value, payload)] ----
     def clauses(self):
@@ -226,6 +226,8 @@ class KCase:
             return [(n, 'shape', e) for n, e in clauses_bs2()]
         if self.op == 'bs3':
             return [(n, 'shape', e) for n, e in clauses_bs3()]
+        if self.op == 'sbt':
+            return [('s', 'sbt', None)]
         if self.op == 'bto':
             return [('v', 'bto', None)]
         if self.op == 'barr':
@@ -241,7 +243,7 @@ class KCase:
         n, what, payload = clause
         if what == 'shape':
             return static_eval(payload, self.shapes, self.kinds)[2]
-        if what == 'bto':
+        if what in ('bto', 'sbt'):
             return False
         # broadcast_arrays / add: left fold over the operand shapes in the given order
         ks = [SHAPE_KIND_OF_ARRAY[self.kinds[j]] for j in payload]
@@ -251,8 +253,8 @@ class KCase:
 
 def emit_case(c, fname):
     ls = ['static std::string %s() {   // %s' % (fname, c.text())]
-    names = 'abc' if c.op in ('bs2', 'bs3') else 'xyz'
-    if c.op in ('bs2', 'bs3'):
+    names = 'abc' if c.op in ('bs2', 'bs3', 'sbt') else 'xyz'
+    if c.op in ('bs2', 'bs3', 'sbt'):
         for j, (s, k) in enumerate(zip(c.shapes, c.kinds)):
             ls += ['    ' + l for l in decl_shape(names[j], s, k, c.salt + 2 * j)]
     elif c.op == 'bto':
@@ -268,6 +270,8 @@ def emit_case(c, fname):
             ls.append('    o.lit("%s", "nothing");   // refused at compile time' % n)
         elif what == 'shape':
             ls.append('    K6_SHP(o, "%s", %s);' % (n, cxx(payload, names)))
+        elif what == 'sbt':
+            ls.append('    K6_SBT(o, "%s", ix::shape_broadcast_to(a, b));' % n)
         elif what == 'bto':
             ls.append('    K6_ARR(o, "%s", view::broadcast_to(x, d));' % n)
         elif what == 'barr':
@@ -283,6 +287,8 @@ def emit_tu(cases):
     ops = {c.op for c in cases}
     out = ['// generated by harness/gen_kinds_c06.py -- do not edit',
            '#include "nmtools/array/index/broadcast_shape.hpp"']
+    if 'sbt' in ops:
+        out.append('#include "nmtools/array/index/broadcast_to.hpp"')
     if ops & {'bto', 'barr', 'barr3', 'add'}:
         out.append('#include "nmtools/array/view/broadcast_to.hpp"')
         out.append('#include "nmtools/array/view/broadcast_arrays.hpp"')
